@@ -309,7 +309,11 @@ impl StepExec {
 
 /// Execute `body` on a fresh real-time current-thread tokio runtime with a seeded `select!` RNG.
 pub fn block_on<T>(body: impl Future<Output = T>) -> T {
-    let seed = ctx::seed();
+    block_on_seeded(ctx::seed(), body)
+}
+
+/// As `block_on`, for helper threads that have no simulation context installed.
+pub fn block_on_seeded<T>(seed: u64, body: impl Future<Output = T>) -> T {
     let rt = Builder::new_current_thread()
         .enable_time()
         .rng_seed(RngSeed::from_bytes(&seed.to_le_bytes()))
